@@ -42,6 +42,8 @@ type wParams struct {
 
 	FdLimit int   `json:"fdlimit,omitempty"` // RLIMIT_NOFILE during the execution (0 = unchanged)
 
+	DstRoot string `json:"dstroot,omitempty"` // use (and keep) this destination directory instead of a fresh one
+
 	Tree   string `json:"tree"`             // source tree recipe
 	DstPre string `json:"dstpre,omitempty"` // destination pre-population recipe
 	Seg    string `json:"seg,omitempty"`    // "", "byte", "coalesce", "cut:<c2s|s2c>:<offset>"
@@ -130,6 +132,11 @@ func treeRecipe(name string) (entries []treeEntry, tops []string) {
 		file("p1/same.txt", 'T', 10, 500)
 		file("p2/same.txt", 'R', 11, 800)
 		tops = []string{"p1/same.txt", "p2/same.txt"}
+	case strings.HasPrefix(name, "longname:"): // one file whose name is n bytes long
+		fmt.Sscanf(name[9:], "%d", &size)
+		n := strings.Repeat("L", size)
+		file(n, 'T', 12, 50)
+		tops = []string{n}
 	case strings.HasPrefix(name, "many:"): // many:<n> tiny files
 		fmt.Sscanf(name[5:], "%d", &size)
 		for i := 0; i < size; i++ {
@@ -193,6 +200,23 @@ func snapshot(root string) map[string]string {
 	return m
 }
 
+// snapshotFull additionally records permission bits and, for files, the modification time.
+func snapshotFull(root string) map[string]string {
+	m := snapshot(root)
+	for k, v := range m {
+		st, err := os.Lstat(filepath.Join(root, filepath.FromSlash(k)))
+		if err != nil {
+			continue
+		}
+		if st.IsDir() {
+			m[k] = fmt.Sprintf("%s:%o", v, st.Mode().Perm())
+		} else {
+			m[k] = fmt.Sprintf("%s:%o:%d", v, st.Mode().Perm(), st.ModTime().UnixNano())
+		}
+	}
+	return m
+}
+
 func snapDiff(want, got map[string]string) string {
 	var d []string
 	for k, v := range want {
@@ -238,6 +262,7 @@ type world struct {
 	uploadRes   <-chan error
 
 	hookErr func(name string, args ...any) error
+	pre     map[string]string // full snapshot of the destination before the transfer
 }
 
 type worldResult struct {
@@ -251,6 +276,7 @@ type worldResult struct {
 	ClientFail   string // decoded #fail:/#FAIL: message the client sent
 	ServerFail   string // decoded fail message the server sent
 	Dst          map[string]string
+	DstFull      map[string]string
 	Alive        []string
 	SrvDoneAt    time.Duration
 	End          time.Duration
@@ -335,11 +361,19 @@ func buildWorld(p wParams) *world {
 	worldSeq++
 	w.root = filepath.Join(scratchDir(), fmt.Sprintf("x%d", worldSeq))
 	w.dstRoot = filepath.Join(w.root, "dst")
+	if p.DstRoot != "" {
+		w.dstRoot = p.DstRoot
+	}
 	must(os.MkdirAll(w.dstRoot, 0o755))
 	w.srcRoot, w.entries, w.tops = sharedTree(p.Tree)
 	if p.DstPre != "" {
+		prepopNames = nil
+		for _, t := range w.tops {
+			prepopNames = append(prepopNames, t[strings.LastIndex(t, "/")+1:])
+		}
 		prepopulate(w.dstRoot, p.DstPre, w.entries)
 	}
+	w.pre = snapshotFull(w.dstRoot)
 	if worldStdoutFile == nil {
 		f, err := os.OpenFile(filepath.Join(scratchDir(), "stdout"), os.O_RDWR|os.O_CREATE|os.O_TRUNC, 0o644)
 		must(err)
@@ -593,6 +627,7 @@ func (w *world) result(s *vs.Sched) *worldResult {
 		}
 	}
 	r.Dst = snapshot(w.dstRoot)
+	r.DstFull = snapshotFull(w.dstRoot)
 	return r
 }
 
@@ -670,6 +705,9 @@ func runWorld(p wParams, cfg vs.Config, prefix, prefixN []int, extra func(w *wor
 		res.Alive = vs.AliveNow()
 		res.Quiet = res0Quiet
 	})
+	if w == nil || (res == nil && w.filter == nil) {
+		panic("harness: building the world failed: " + s.CrashString() + " " + s.Diverged)
+	}
 	if res == nil {
 		// the execution ended before quiescence (deadlock cannot happen with WaitQuiescent; crash or horizon can)
 		vs.Peek(func() { res = w.result(nil) })
